@@ -149,10 +149,10 @@ macro_rules! cases_cmd {
             let (got, extra) = $modname::run_case(&c, seed, n);
             *classes.entry(format!("{}:{}", c["op"].as_str().unwrap_or("?"), got)).or_insert(0) += 1;
             let exp = c["expect"].as_str().unwrap_or("?");
-            if got != exp {
+            if got != exp && !(exp == "notok" && (got == "err" || got == "panic")) {
                 mism.push(json!({"index": n, "group": $modname::GROUP, "seed": seed, "case": c,
                     "message": format!("{}: specification predicts {}, library returned {}{}", c["op"].as_str().unwrap_or("?"), exp, got, extra.map(|e| format!(" ({})", e)).unwrap_or_default())}));
-            } else if let Some(e) = extra {
+            } else if let (Some(e), false) = (extra, exp == "notok" && got == "panic") {
                 mism.push(json!({"index": n, "group": $modname::GROUP, "seed": seed, "case": c, "message": format!("{}: {}", c["op"].as_str().unwrap_or("?"), e)}));
             }
             n += 1;
@@ -259,6 +259,9 @@ fn main() {
         "threads" => {
             // --reference: every call alone; --histories FILE: forced hand-off; --race N: free-running in this fresh process
             let mut evs: Vec<Value> = vec![];
+            if let Some(n) = arg(&args, "--flood") {
+                threads::FLOOD_N.store(n.parse().unwrap(), std::sync::atomic::Ordering::Relaxed);
+            }
             if let Some(c) = arg(&args, "--reference") {
                 let c: usize = c.parse().unwrap();
                 evs.push(json!({"ev": "Ref", "scen": 0, "call": c, "digest": threads::reference(c)}));
